@@ -634,3 +634,22 @@ def validate_contracts_natively(ctx, contracts, states, scope, rule, limit=None)
                          detail="%s: %s; failed clauses %s" % (desc, outcome, failed), kind="T1")
         if n and uneval == n:
             ctx.checker_failure("native monitor of %s could not evaluate its requires on any state" % c.name)
+
+
+def replay_state_record(rec, contracts, states):
+    """re-run a witness found by replay_by_search: the state is regenerated by its description and the real function is called under
+    the natively evaluated contract again.  True when the property holds on this input now."""
+    w = rec.get("witness", {})
+    fn, st = w.get("function"), w.get("state")
+    cs = [c for c in contracts if c.target == fn] or [c for c in contracts if rec.get("obligation", "").startswith(c.name + ".")]
+    if not cs or st is None:
+        print("no state recorded for this obligation (solver output only): %s" % (w.get("solver_output") or w.get("model") or ""))
+        return True
+    for c in cs:
+        for kw, uni, desc in states(c):
+            if desc == st:
+                failed, outcome = native_check(c, kw, universe=uni)
+                print("%s on %s: %s; failed clauses: %s" % (c.name, desc, outcome, failed))
+                return not failed
+    print("state %r is not generated any more" % st)
+    return True
